@@ -14,7 +14,49 @@ def factories():
     return M
 
 
-def mesh_record(rid, name, params, shape, out, exc="none"):
+def factory_config(name, params, shape, out):
+    """configuration of the explorer TetFactory.tla that a call corresponds to, derived from the arguments (class rules as
+    documented in the factory) and from the size of the output; None when the model does not cover the call"""
+    nv = int(len(out[0]))
+    base = name.split(".")[-1].replace("make_", "")
+    cfg = {"kind": "", "n": 0, "c": 0, "z": [], "order": 0}
+    if base in ("sphere", "ellipsoid"):
+        order = params.get("order", 2)
+        if order > 3:
+            return None
+        cfg.update(kind="ico", order=int(order))
+    elif base == "cube":
+        cfg.update(kind="cube")
+    elif base == "box":
+        half = 0.5 * np.array([shape["a"], shape["b"], shape["c"]])
+        tol = 1e-14 * max(1.0, float(half.min()))
+        cfg.update(kind="box", z=[int(a) for a in range(3) if half[a] - half.min() <= tol])
+    elif base == "cylinder":
+        top, r = 0.5 * shape["h"], shape["r"]
+        tol = 1e-14 * max(1.0, min(top, r))
+        if top - r > tol:
+            cfg.update(kind="cyl_long", n=(nv - 4) // 2)
+        elif r - top > tol:
+            cfg.update(kind="cyl_short", n=(nv - 3) // 3)
+        else:
+            cfg.update(kind="cyl_medium", n=(nv - 3) // 2)
+    elif base == "capsule":
+        n = next((k for k in range(3, 800) if 4 + 2 * k * (k // 2) == nv), None)
+        if n is None:
+            return None
+        cfg.update(kind="capsule", n=int(n), c=int(n // 2))
+    else:
+        return None
+    return cfg
+
+
+def factory_record(rid, cfg, out):
+    T, pot = np.asarray(out[1], dtype=int), np.asarray(out[2], dtype=float)
+    return {"id": rid, **cfg, "E": [[int(i) for i in t] for t in T], "nv": int(len(out[0])),
+            "pot1": [int(i) for i in np.where(pot != 0.0)[0]]}
+
+
+def mesh_record(rid, name, params, shape, out, exc="none", allow_comb=True):
     rec = {"id": rid, "factory": name, "exc": exc, "comb": False, "T": [[1, 2, 3, 4]], "nv": 4, "zero": [1, 2, 3, 4],
            "minVolOK": True, "apexOK": True, "volSum": 0, "inside": 0, "inradius": 0, "helpers": 0, "exactVol": 0}
     if exc != "none":
@@ -24,7 +66,7 @@ def mesh_record(rid, name, params, shape, out, exc="none"):
     L = max(1.0, float(np.max(np.linalg.norm(V, axis=1))) * 2)
     size = float(np.max(np.abs(V))) * 2
     rec["nv"] = int(len(V))
-    rec["comb"] = bool(len(T) <= MAXCOMB)
+    rec["comb"] = bool(len(T) <= MAXCOMB) and allow_comb
     if rec["comb"]:
         rec["T"] = [sorted(int(i) + 1 for i in t) for t in T]
     rec["zero"] = [int(i) + 1 for i in np.where(np.abs(pot) <= 1e-12 * max(size, 1e-300))[0]]
@@ -114,7 +156,9 @@ def cases(tier, rng):
     for nper in ns:
         r = rng.choice((0.5, 1.0, 2.0))
         hint = 2 * math.pi * r / (nper + 0.5)
-        for ratio in ((0.5, 2.0, 6.0) if tier == "quick" else (0.2, 0.5, 1.0, 2.0, 2.000001, 3.0, 6.0, 20.0)):
+        # the class boundary length = 2 * radius is approached from both sides (seed C17-8: a wider "medium" band gives a short
+        # cylinder the medial potential of a medium one)
+        for ratio in ((0.5, 1.999, 2.0, 2.001, 6.0) if tier == "quick" else (0.2, 0.5, 1.0, 1.99, 1.999, 1.999999, 2.0, 2.000001, 2.001, 2.01, 3.0, 6.0, 20.0)):
             ln = r * ratio
             if (nper > 26 and ratio != 2.0):
                 continue
@@ -140,36 +184,95 @@ def cases(tier, rng):
     return out
 
 
+MODEL_CFGS = {"quick": [("TetFactory_q_cyl.cfg", None), ("TetFactory_q_cap.cfg", None)],
+              "thorough": [("TetFactory_t_cyl.cfg", None), ("TetFactory_t_cap.cfg", None)]}
+MODEL_FAIL = [("TetFactory_no_wrap.cfg", "IndicesInRange"), ("TetFactory_alt_diag.cfg", "FaceAtMostTwo"),
+              ("TetFactory_box_nodup.cfg", "FourDistinct"), ("TetFactory_ring_shift.cfg", "ApexesSeparated")]
+
+
+def model_check(tier, res):
+    """TLC on the explorer TetFactory.tla: the library's construction satisfies every invariant for all configurations within the
+    bounds of the cfg files; each slip variant violates the invariant named for it (vacuity guard)"""
+    from .. import tlc
+    jobs = [dict(spec_dir="hydro", module="TetFactory", cfg=c, workers=6 if tier == "quick" else 8, heap="3g", timeout=7200, tag=c[:-4])
+            for c, _ in MODEL_CFGS[tier]] + \
+           [dict(spec_dir="hydro", module="TetFactory", cfg=c, workers=1, heap="1g", timeout=1800, tag=c[:-4]) for c, _ in MODEL_FAIL]
+    outs = tlc.run_many(jobs, par=6)
+    info = {}
+    for (c, expect), r in zip(MODEL_CFGS[tier] + MODEL_FAIL, outs):
+        res.add_tlc(r)
+        info[c] = {"distinct": r.distinct, "violated": r.invariant_violated, "wall": round(r.wall, 1)}
+        if expect is None:
+            if r.invariant_violated:
+                res.violation(f"model:{c}:{'+'.join(r.invariant_violated)}", "+".join(r.invariant_violated),
+                              f"the explorer TetFactory ({c}) violates {r.invariant_violated}: the construction as transcribed does not tile", {"cfg": c})
+            elif not r.ok:
+                i = r.out.find("Error")
+                res.machinery(f"TLC on TetFactory {c} did not finish:\n" + r.out[i:i + 1500])
+        elif expect not in r.invariant_violated:
+            res.machinery(f"vacuity guard: variant {c} was expected to violate {expect}, TLC says {r.invariant_violated or r.out[-600:]}")
+    res.coverage["model_checking"] = info
+
+
 def run(tier, seed):
     env.setup()
     rng = random.Random(seed)
     res = Result("C17", tier, seed)
-    recs, meta = [], {}
+    from concurrent.futures import ThreadPoolExecutor
+    ex = ThreadPoolExecutor(max_workers=1)
+    mc = ex.submit(model_check, tier, res)
+    recs, meta, outs, fac = [], {}, {}, []
     for i, (name, call, shape, params) in enumerate(cases(tier, rng)):
         rid = f"m{i}"
         try:
             out = call()
             rec = mesh_record(rid, name, params, shape, out)
+            outs[rid] = (name, params, shape, out)
+            cfg = factory_config(name, params, shape, out)
+            if cfg is not None:
+                fac.append(factory_record(rid, cfg, out))
         except Exception as e:
             rec = mesh_record(rid, name, params, shape, None, exc=type(e).__name__)
         recs.append(rec)
         meta[rid] = {"factory": name, "params": params, "ntets": len(rec["T"]) if rec["comb"] else "large"}
+    # every mesh is measured a second time after all factories have run: a mesh must stay what it was when later calls
+    # build other meshes (seed C17-7: a potentials array shared between all spheres of one order)
+    for rid, (name, params, shape, out) in outs.items():
+        rec = mesh_record(rid + "e", name, params, shape, out, allow_comb=False)
+        recs.append(rec)
+        meta[rid + "e"] = {"factory": name, "params": params, "ntets": "re-measured after all calls", "again": True}
     byid = {r["id"]: r for r in recs}
     rejects = trace.judge(recs, "hydro", "TetMeshTrace", "TetMeshTrace.cfg", "c17", res, heap="2g", per_shard=8)
-    for rid, clauses in sorted(rejects.items(), key=lambda kv: int(kv[0][1:])):
+    for rid, clauses in sorted(rejects.items(), key=lambda kv: (int(kv[0][1:].rstrip("e")), kv[0])):
         m, r = meta[rid], byid[rid]
-        res.violation(f"{m['factory']}:{'+'.join(sorted(clauses))}:{chash(m['params'])}", "+".join(sorted(clauses)),
-                      f"{m['factory']} {m['params']} " + str({k: r[k] for k in ('minVolOK', 'apexOK', 'volSum', 'inside', 'inradius', 'helpers', 'exactVol', 'exc')}),
+        late = ":after-later-calls" if m.get("again") else ""
+        res.violation(f"{m['factory']}:{'+'.join(sorted(clauses))}:{chash(m['params'])}{late}", "+".join(sorted(clauses)),
+                      f"{m['factory']} {m['params']}{late} " + str({k: r[k] for k in ('minVolOK', 'apexOK', 'volSum', 'inside', 'inradius', 'helpers', 'exactVol', 'exc')}),
                       {"meta": m, "seed": seed})
+    # binding of the explorer: the returned index arrays against the model's element list (drift, not a verdict)
+    drift = trace.judge(fac, "hydro", "TetFactoryTrace", "TetFactoryTrace.cfg", "c17f", res, heap="2g", per_shard=12)
+    res.coverage["drift"] = len(drift)
+    res.coverage["factory_outputs_equal_to_model"] = len(fac) - len(drift)
+    kinds = {}
+    for f in fac:
+        kinds.setdefault(f["kind"], set()).add((f["n"], f["c"], tuple(f["z"]), f["order"]))
+    res.coverage["factory_configurations_bound"] = {k: len(v) for k, v in sorted(kinds.items())}
+    for rid, clauses in sorted(drift.items())[:10]:
+        res.notes.append(f"drift: {meta[rid]['factory']} {meta[rid]['params']} differs from TetFactory.tla in {sorted(clauses)}")
+    mc.result()
     res.coverage["evaluations"] = len(recs)
     res.coverage["combinatorial_by_tlc"] = sum(1 for r in recs if r["comb"])
     res.coverage["distinct_nontrivial"] = len({chash([m["factory"], m["params"]]) for m in meta.values()})
     res.coverage["rule"] = ("factories over log-uniform sizes in [1e-2, 1e2]: icosphere orders 0..2 (thorough 0..4), ellipsoids, cubes, boxes with "
                             "generic / two equal / three equal / equal-up-to-rounding / flat sides, cylinders for every vertex count per circle "
-                            "3..25 (thorough ..129) x length classes incl. the class boundary, capsules, the RigidBody constructors; the index "
-                            f"arrays of meshes with <= {MAXCOMB} tetrahedra are judged combinatorially by TLC")
+                            "3..25 (thorough ..129) x length classes incl. both sides of the class boundary, capsules, the RigidBody constructors; "
+                            f"the index arrays of meshes with <= {MAXCOMB} tetrahedra are judged combinatorially by TLC; every mesh is measured "
+                            "again after all factory calls; the explorer TetFactory.tla is model-checked (all convex lattice polygons with up to "
+                            "MaxN vertices, all box side patterns, icosphere orders) and every returned index array is compared with its element list")
     res.coverage["samples"] = [meta["m0"], {k: v for k, v in recs[0].items() if k != "T"}]
-    res.assumptions = ["hull volume from scipy.spatial.ConvexHull (trusted base)", "vertices-in-shape measured with the float mirror of module Shapes"]
+    res.assumptions = ["hull volume from scipy.spatial.ConvexHull (trusted base)", "vertices-in-shape measured with the float mirror of module Shapes",
+                       "TetFactory.tla: signs of determinants depend only on the cyclic order and convexity of the circle polygon (lattice polygons "
+                       "inscribed in a circle stand for the regular polygon)"]
     return res
 
 
